@@ -1,4 +1,5 @@
 """C11 — flattening keeps the operations (DESIGN.md 7, C11)."""
+import json
 import coregen
 from coregen import gen_case, nontrivial as _nt, c_env, c_prog, c_obs, c_oentry, shrink_candidates
 from common import cbool, clist, cz
@@ -63,12 +64,30 @@ def block_with_sub_repeated(prog, outer_rep=False):
     return False
 
 
+def _keys(ops):
+    return sorted(json.dumps([e['cls'], e['ch'], e['d'], e.get('tag')]) for e in ops)
+
+
+def fexp_ok_py(x):
+    """Python mirror of C11.Run.fexp_ok, used ONLY to scope the known-finding class (never to pass a case)."""
+    if x is None:
+        return True
+    if x.get('recursion_error'):
+        return False
+    return _keys(x['before']) == _keys(x['ops']) and x['n_comps'] == 0 and x['again']
+
+
+F10_CLASS = 'flatten() after apply_modifiers() of a repeated block (count >= 2) that contains a sub-circuit'
+
+
 def known_class(c, o):
-    """F10: flatten after unrolling a repeated block that directly contains a sub-circuit -> cyclic relations (RecursionError)"""
-    fu = o.get('flat_unrolled') or {}
-    fp = o.get('flat_plain') or {}
-    if fu.get('recursion_error') and not fp.get('recursion_error') and block_with_sub_repeated(c['prog']):
-        return 'flatten after unrolling a repeated block that contains a sub-circuit: RecursionError'
+    """F10: after unrolling, the chained copies carry multi-links whose reference group contains a sub-circuit; flatten()
+    re-inserts only the leaf operations, the links keep consulting the vanished nested graphs: RecursionError (cyclic
+    relations) or a listing that a second flatten() changes.  The class excuses only the unrolled half of a case."""
+    if 'error' in o:
+        return None
+    if block_with_sub_repeated(c['prog']) and fexp_ok_py(o.get('flat_plain')) and not fexp_ok_py(o.get('flat_unrolled')):
+        return F10_CLASS
     return None
 
 
